@@ -97,6 +97,11 @@ def regenerate(data):
     return data
 
 
+def setup():
+    """called by setup.sh: Gen/ApiDesc.v must exist before the full `make`"""
+    regenerate({})
+
+
 # ----------------------------------------------------------------------------- python oracle (names the path)
 
 def rename(p, q, s):
